@@ -103,14 +103,15 @@ class Run:
         """bounded differential check of one kernel: real compiled code (ASan/UBSan) against its contract.
         cases: list of argument lists.  Returns (n_admissible, failures)."""
         cf = contract.REGISTRY[relpath]; K = cf.kernels[fname]
-        h = self.harness(group_of(relpath)); sig = h.sigs[fname]
+        base = fname.split('#')[0]
+        h = self.harness(group_of(relpath)); sig = h.sigs[base]
         adm = [a for a in cases if judge.admissible(K, cf.specs, sig, a, consts)]
         seen = set(); uniq = []
         for a in adm:
             key = repr(a)
             if key not in seen:
                 seen.add(key); uniq.append(a)
-        res = h.run([(fname, a) for a in uniq]) if uniq else []
+        res = h.run([(base, a) for a in uniq]) if uniq else []
         fails = []
         for a, r in zip(uniq, res):
             if r is None:
@@ -196,7 +197,7 @@ class Run:
             self.broken.append('solver error on %s' % vs[0]['id']); return
         # 1. replay the solver's counter-model on the real code
         try:
-            h = self.harness(group_of(relpath)); sig = h.sigs.get(fn)
+            h = self.harness(group_of(relpath)); sig = h.sigs.get(fn.split('#')[0])
         except Exception:
             self.broken.append('harness build failed: ' + traceback.format_exc()[-1500:]); return
         witness = None
@@ -210,7 +211,7 @@ class Run:
                         pass
             cands = [a for a in cands if judge.admissible(K, cf.specs, sig, a, consts)][:6]
             if cands:
-                res = h.run([(fn, a) for a in cands])
+                res = h.run([(fn.split('#')[0], a) for a in cands])
                 for a, r in zip(cands, res):
                     if r is None:
                         continue
